@@ -225,6 +225,25 @@ def check_C17(tier):
         left = [p for p in second.snapshot if p.endswith(".fifo") or os.path.basename(p).startswith("_scipipe_tmp")]
         if left: chk.violation("re-run left a pipe / temp dir behind: %s" % left[:3], dict(instance=inst))
         chk.nontrivial.add("rerun:multi-out producer")
+    # a producer with TWO streaming out-ports, one consumer each (three commands rendez-vous per item)
+    two = dict(name="ST2", max=6, bufsize=4,
+               procs=[zoo.src("s", zoo.items(2)), dict(name="p", kind="cmd", ins=["in"], outs=["left", "right"], streams=["left", "right"]),
+                      zoo.cmd("cl", ["in"], ["out"]), zoo.cmd("cr", ["in"], ["out"])],
+               edges=[zoo.E("s.out", "p.in"), zoo.E("p.left", "cl.in"), zoo.E("p.right", "cr.in")])
+    for rr in fc.real_runs(two, [dict(env={}, bufsize=4, timeout=30), dict(env={"VERIF_JITTER": "3"}, bufsize=1, timeout=30)]):
+        chk.evaluations += 1
+        if rr.timeout or rr.deadlock or rr.rc != 0 or not rr.completed:
+            chk.violation("producer with two streaming out-ports: workflow %s" % ("did not terminate" if (rr.timeout or rr.deadlock) else "failed rc=%s %s" % (rr.rc, rr.stderr[-160:].replace("\n", " | "))), dict(instance=two)); continue
+        for item in zoo.items(2):
+            for port, cons in (("left", "cl"), ("right", "cr")):
+                pid = "p.%s_%s" % (port, item); cid = "%s.out_%s" % (cons, pid)
+                want = "BEGIN %s\nBEGIN %s\nSRC %s\nEND %s\nEND %s\n" % (cid, pid, item, pid, cid)
+                got = rr.snapshot.get("o/%s.txt" % cid, {}).get("text")
+                if got != want:
+                    chk.violation("producer with two streaming out-ports: the consumer of port %s did not receive exactly the producer's bytes for item %s (%r)" % (port, item, (got or "")[:60]), dict(instance=two))
+        left = [p for p in rr.snapshot if p.endswith(".fifo") or os.path.basename(p).startswith("p.") and p.endswith(".txt") or os.path.basename(p).startswith("_scipipe_tmp")]
+        if left: chk.violation("producer with two streaming out-ports: pipe / regular file at a stream path / temp dir left: %s" % left[:3], dict(instance=two))
+        else: chk.nontrivial.add("two-stream-ports")
     # heavy producer, light consumer: CoresPerTask(producer) + CoresPerTask(consumer) slots suffice for one pair
     for pc, cc, mx in ((2, 1, 3), (4, 1, 6), (3, 2, 5)):
         inst = stream_inst(1, mx, 1000); inst["name"] = "STCORES"
